@@ -105,9 +105,20 @@ class LeanSide:
             text = strip_comments(open(self._path(module)).read())
         except OSError:
             return []
-        ns = NAMESPACE_RE.search(text)
-        prefix = (ns.group(1) + ".") if ns else ""
-        return [prefix + m.group(2) for m in THEOREM_RE.finditer(text)]
+        out, stack = [], []
+        for line in text.splitlines():
+            m = re.match(r"^\s*namespace\s+([\w.]+)", line)
+            if m:
+                stack.append(m.group(1))
+                continue
+            m = re.match(r"^\s*end\s+([\w.]+)\s*$", line)
+            if m and stack and stack[-1] == m.group(1):
+                stack.pop()
+                continue
+            m = THEOREM_RE.match(line)
+            if m:
+                out.append(".".join(stack + [m.group(2)]))
+        return out
 
     def run(self):
         t0 = time.time()
